@@ -666,9 +666,26 @@ func TestReaderSide(t *testing.T) {
 
 		var ms wsflate.MessageState
 		ms.SetCompressed(prior)
-		state := ws.StateClientSide | ws.StateExtended
+		// reader configuration: with header checks off the attached extensions run whatever the
+		// Extended flag says; with checks on and Extended off the header check refuses RSV bits
+		extended := rapid.IntRange(0, 3).Draw(t, "state-extended") != 0
+		skipCheck := rapid.IntRange(0, 3).Draw(t, "skip-header-check") == 0
+		state := ws.StateClientSide
 		if server {
-			state = ws.StateServerSide | ws.StateExtended
+			state = ws.StateServerSide
+		}
+		if extended {
+			state |= ws.StateExtended
+		}
+		hx.Class(fmt.Sprintf("reader/config/extended=%v/skip-header-check=%v", extended, skipCheck))
+		if !extended && !skipCheck {
+			violation = -1
+			for i, f := range frames {
+				if f.H.Rsv != 0 {
+					violation = i // refused by the header check: no extension negotiated as far as the state says
+					break
+				}
+			}
 		}
 		funcExt := rapid.IntRange(0, 2).Draw(t, "funcext") == 0
 		freshReaders := rapid.IntRange(0, 3).Draw(t, "fresh-reader-per-message") == 0
@@ -678,7 +695,7 @@ func TestReaderSide(t *testing.T) {
 			if funcExt {
 				ext = wsutil.RecvExtensionFunc(ms.UnsetBits)
 			}
-			rd := &wsutil.Reader{Source: src, State: state, Extensions: []wsutil.RecvExtension{ext}}
+			rd := &wsutil.Reader{Source: src, State: state, SkipHeaderCheck: skipCheck, Extensions: []wsutil.RecvExtension{ext}}
 			if callbacks {
 				rd.OnContinuation = func(h ws.Header, _ io.Reader) error {
 					log = append(log, seen{kind: 'c', h: h, state: ms.IsCompressed()})
@@ -696,6 +713,8 @@ func TestReaderSide(t *testing.T) {
 
 		hx.Eval()
 		switch {
+		case !extended && !skipCheck && violation >= 0:
+			hx.Class("reader/rsv-refused-by-header-check")
 		case violation < 0:
 			hx.Class("reader/all-legal")
 		case ref.IsControl(frames[violation].H.Op) && ref.FragmentedBefore(frames, violation):
@@ -720,7 +739,9 @@ func TestReaderSide(t *testing.T) {
 			}
 			return g == want
 		}
-		desc := func() string { return fmt.Sprintf("%q server=%v chunks=%v", ref.Describe(frames), server, chunks) }
+		desc := func() string {
+			return fmt.Sprintf("%q server=%v extended=%v skip-header-check=%v chunks=%v", ref.Describe(frames), server, extended, skipCheck, chunks)
+		}
 
 		i := 0
 		for i < len(frames) {
@@ -731,7 +752,7 @@ func TestReaderSide(t *testing.T) {
 			h, err := rd.NextFrame()
 			if i == violation {
 				if !isProtocolError(err) {
-					t.Fatalf("frame %d (top-level control with RSV1): NextFrame err = %v, want a ws.ProtocolError\n%s", i, err, desc())
+					t.Fatalf("frame %d (RSV1 on a top-level control frame, or RSV bits with header checks on and no Extended state): NextFrame err = %v, want a ws.ProtocolError\n%s", i, err, desc())
 				}
 				return
 			}
